@@ -119,7 +119,7 @@ def run(ctx):
     # system level: a network of honest real nodes (spec/Net.tla; TLC checks Agreement and TreeSafety on the model):
     # the finalized prefixes of all real nodes agree on real block ids, BFT heights per node follow the model
     from props import net
-    netcov = net.run_net(ctx, lambda k: k.startswith(("net:agreement", "net:heights-mismatch")), parts=("honest_sim", "byz_exh", "byz_sim"))
+    netcov = net.run_net(ctx, lambda k: k.startswith(("net:agreement", "net:heights-mismatch")), parts=("honest_sim", "byz_exh", "byz_sim", "chg_sim"))
     if not ctx.violations and (total["paths_with_finality"] == 0):
         raise Inconclusive("no replayed path reached finality: vacuous")
     cov = dict(traces_validated_against_impl=total["distinct_paths"], samples=samples,
